@@ -4,3 +4,5 @@ import BB.Conform.Generic
 import BB.Proofs.PubSubHist
 import BB.Model.CtxBuild
 import BB.Proofs.CtxBuild
+import BB.Conform.Worker
+import BB.Proofs.CasterLive
